@@ -78,6 +78,13 @@ def trace_cfgs(tier, seed):
                                     continue
                                 cfgs.append(mk_cfg(mt, depth, width, gran, rp, wp,
                                                    make_init(ik, depth, width, rng), transp_of(tk, rp, wp)))
+    # write-port counts that are not powers of two (index widths of live-value tables / bank selectors)
+    for mt in MEMTYPES:
+        for wp in ((3, 5, 6, 7) if tier == "thorough" else (3, 5)):
+            for tk in ("none", "all"):
+                if accepts(mt, write_ports=wp, granularity=0):
+                    cfgs.append(mk_cfg(mt, 8, 4, 0, 2, wp, make_init("full" if tk == "none" else "empty", 8, 4, rng),
+                                       transp_of(tk, 2, wp)))
     # random extras: more ports, other depths / widths / granularities / partial init
     n_extra = 400 if tier == "thorough" else 40
     shapes = [(2, 2), (2, 4), (3, 4), (4, 2), (6, 3), (7, 5), (8, 4), (8, 8), (9, 2), (12, 3), (16, 2), (16, 3), (16, 8)]
